@@ -5,7 +5,7 @@ VERIF = os.path.dirname(os.path.dirname(os.path.abspath(__file__)))
 REPO = os.environ.get("VERIF_REPO", "/repo")
 BUILD = os.path.join(VERIF, "build")
 EVIDENCE = os.environ.get("VERIF_EVIDENCE_DIR") or (os.path.join(VERIF, "evidence") if REPO == "/repo" else os.path.join(BUILD, "evidence_scratch"))
-REPLAYS = os.path.join(VERIF, "replays") if REPO == "/repo" else os.path.join(BUILD, "replays_scratch")
+REPLAYS = os.environ.get("VERIF_REPLAYS_DIR") or (os.path.join(VERIF, "replays") if REPO == "/repo" else os.path.join(BUILD, "replays_scratch"))
 SRC = os.path.join(REPO, "derive-ex", "src")
 GUARD = "frozenlib_derive_ex_verif"
 NCPU = os.cpu_count() or 4
@@ -179,6 +179,7 @@ class Ctx:
         wall = time.time() - self.t0
         for key, what in self.known_hit:
             print("KNOWN-FINDING: property=%s %s" % (self.pid, what))
+        self.violations.sort(key=lambda v: 0 if v["key"].startswith("G:") else 1)   # named proof obligations first
         for v in self.violations[:50]:
             tail = " no-failing-input-found" if v["no_input"] else ""
             print("VIOLATION property=%s replay=%s%s" % (self.pid, v["replay"], tail))
